@@ -132,6 +132,8 @@ def run(chk, which="C19"):
         for pid, r in res.items():
             p = by[pid]
             nprobe += 1
+            if r.get("unverified"):
+                continue
             cfgs_ = f"{cfg[0]}:{cfg[1]}"
             if p["expect"] == "reject" and not r["rejected"]:
                 chk.violation(f'C19|point_accepts_zero|cfg={cfgs_}|form={p["form"]}|unit={p["unit"]}|rep={p["rep"]}', msg=f'{cfgs_}: ZERO accepted where QuantityPoint<{p["unit"]},{p["rep"]}> is required ({p["form"]})')
